@@ -1563,6 +1563,50 @@ fn find_query_semantics() {
             }
         }}
     }
+    // ---- every result type x every kind of constraint in a LATER position: when the constraint on its own is answered, and the
+    //      intersection with the first constraint is not empty, the conjunction must not come back empty (a constraint kind that is
+    //      not evaluated in a later position makes the whole query return nothing: the error is printed and swallowed)
+    {
+        let mut st = AnnotationStore::default();
+        for r in ["book", "memo", "note"] { st.add_resource(TextResourceBuilder::new().with_id(r).with_text("some text here")).unwrap(); }
+        st.annotate(AnnotationBuilder::new().with_id("a1").with_target(SelectorBuilder::resourceselector("book")).with_data("set", "genre", "novel")).unwrap();
+        st.annotate(AnnotationBuilder::new().with_id("a2").with_target(SelectorBuilder::textselector("memo", Offset::simple(0, 4))).with_data("set", "genre", "novel")).unwrap();
+        st.annotate(AnnotationBuilder::new().with_id("a3").with_target(SelectorBuilder::resourceselector("note")).with_data("set", "genre", "novel")).unwrap();
+        st.annotate(AnnotationBuilder::new().with_id("a4").with_target(SelectorBuilder::textselector("note", Offset::simple(0, 4))).with_data("set", "genre", "novel").with_data("set2", "n", 5)).unwrap();
+        st.annotate(AnnotationBuilder::new().with_id("a5").with_target(SelectorBuilder::textselector("book", Offset::simple(5, 9))).with_data("set", "lang", "en")).unwrap();
+        st.annotate(AnnotationBuilder::new().with_id("a6").with_target(SelectorBuilder::annotationselector("a4", None)).with_data("set", "lang", "en")).unwrap();
+        st.annotate(AnnotationBuilder::new().with_id("a7").with_target(SelectorBuilder::datasetselector("set")).with_data("set2", "n", 6)).unwrap();
+        let items = |q: &str| -> Result<Vec<String>, String> {
+            match std::panic::catch_unwind(std::panic::AssertUnwindSafe(|| -> Result<Vec<String>, String> {
+                let query: Query = q.try_into().map_err(|e: StamError| format!("parse: {}", e))?;
+                let mut out = vec![];
+                for results in st.query(query).map_err(|e| format!("query: {}", e))? { for r in results.iter() { out.push(match r {
+                    QueryResultItem::TextResource(x) => x.id().unwrap_or("?").to_string(), QueryResultItem::Annotation(x) => x.id().unwrap_or("?").to_string(),
+                    QueryResultItem::AnnotationData(d) => format!("{}/{}={}", d.set().id().unwrap_or("?"), d.key().as_str(), d.value()), QueryResultItem::DataKey(k) => format!("{}/{}", k.set().id().unwrap_or("?"), k.as_str()),
+                    QueryResultItem::AnnotationDataSet(x) => x.id().unwrap_or("?").to_string(), QueryResultItem::TextSelection(t) => format!("{}:{}-{}", t.resource().id().unwrap_or("?"), t.begin(), t.end()), _ => "?".to_string() }); } }
+                out.sort(); out.dedup(); Ok(out) })) { Ok(x) => x, Err(_) => Err("PANIC".to_string()) } };
+        let cs: [(&str, &str); 10] = [("DATA set genre = novel", "DATA key = value"), ("DATA AS METADATA set genre = novel", "DATA AS METADATA key = value"), ("DATA set2 n > 4", "DATA key = value"), ("DATA set genre", "DATA key"),
+            ("RESOURCE note", "RESOURCE"), ("DATASET set", "DATASET"), ("DATASET set2", "DATASET"), ("ID a4", "ID"), ("TEXT \"some\"", "TEXT"), ("ANNOTATION a4", "ANNOTATION")];
+        let mut problems: Vec<(String, String)> = vec![];
+        for t in ["ANNOTATION", "TEXT", "RESOURCE", "DATA", "KEY", "DATASET"] {
+            let singles: Vec<Result<Vec<String>, String>> = cs.iter().map(|(c, _)| items(&format!("SELECT {} ?x WHERE {};", t, c))).collect();
+            for (i, (c, _)) in cs.iter().enumerate() { for (j, (d, kind)) in cs.iter().enumerate() {
+                let (a, b) = match (&singles[i], &singles[j]) { (Ok(a), Ok(b)) => (a, b), (Err(e), _) | (_, Err(e)) => { if e == "PANIC" { println!("WITNESS {{\"clause\":\"query\",\"query\":\"SELECT {} .. {} / {}\",\"problem\":\"panic\"}}", t, c, d); return; } continue } };
+                let want: Vec<String> = a.iter().filter(|x| b.contains(x)).cloned().collect();
+                if want.is_empty() { continue; }
+                let q = format!("SELECT {} ?x WHERE {}; {};", t, c, d);
+                match items(&q) {
+                    Err(e) if e == "PANIC" => { println!("WITNESS {{\"clause\":\"query\",\"query\":{:?},\"problem\":\"panic\"}}", q); return; }
+                    Ok(got) if !got.is_empty() => {}
+                    other => { let key = format!("SELECT {}: a {} constraint in a later position returns nothing", t, kind); if !problems.iter().any(|(k, _)| *k == key) { problems.push((key, format!("{} -> {:?}, the two constraints on their own share {:?}", q, other, want))); } }
+                }
+            }}
+        }
+        if std::env::var("VX_LIST_PROBLEMS").is_ok() { for (k, w) in &problems { println!("PROBLEM {} :: {}", k, w); } }
+        for (key, what) in problems {
+            if known.contains(&key) { println!("KNOWN {}", key); } else { println!("WITNESS {{\"clause\":\"conjunction = intersection, whatever the position of a constraint\",\"problem\":{:?},\"observed\":{:?}}}", key, what); return; }
+        }
+    }
     println!("NO-WITNESS find_query_semantics");
 }
 
